@@ -205,3 +205,25 @@ Definition ginz (p : (Z * Z) * (Z * Z)) : GQ :=
   (Q2Qc (fst (fst p) # Z.to_pos (snd (fst p))), Q2Qc (fst (snd p) # Z.to_pos (snd (snd p)))).
 Definition gq_tab2z (n m : nat) (A : mat GQ) : list (list ((Z * Z) * (Z * Z))) :=
   map (fun i => map (fun j => goutz (A i j)) (seq 0 m)) (seq 0 n).
+
+(* ---------------------------------------------------------------- sweeper state and the public set_G_inv
+
+   QDiagonalization keeps FOUR things that update_nodes reads: params.G_inv and the diagonalisation
+   (w, S, S_inv) of Q G^-1.  set_G_inv stores the factor and recomputes the diagonalisation from it;
+   __init__ is set_G_inv applied to params['G_inv'] (identity by default).  computeDiagonalization
+   (numpy.linalg.eig + inv) is an oracle [eig] here. *)
+Section SweeperState.
+Variable F : Type.
+Variables (f0 : F) (fadd fmul : F -> F -> F).
+Variable eig : mat F -> (nat -> F) * mat F * mat F.
+
+Record qd_state := { st_Ginv : mat F; st_w : nat -> F; st_S : mat F; st_Si : mat F }.
+
+Definition set_G_inv (M : nat) (Q : mat F) (st : qd_state) (g : mat F) : qd_state :=
+  let '(w, Sm, Smi) := eig (mmul F f0 fadd fmul M Q g) in
+  {| st_Ginv := g; st_w := w; st_S := Sm; st_Si := Smi |}.
+
+(* update_nodes reading the state *)
+Definition update_nodes_st (M : nat) (dt : F) (st : qd_state) (solve : F -> vec F -> vec F) (r : nodesv F) : nodesv F :=
+  qdiag_update F f0 fadd fmul M dt (st_w st) (st_S st) (st_Si st) (st_Ginv st) solve r.
+End SweeperState.
